@@ -13,23 +13,33 @@ class Verdict:
         sv = z3.Solver(); sv.add(*self.query[0]); sv.add(z3.Not(self.query[1])); return sv.to_smt2()
     def __repr__(self): return f"{self.status}[{self.backend},{self.secs:.2f}s,lem={self.lemmas}]"
 
+UNIT_DEADLINE = [None]
 DEADLINE = [None]        # wall-clock cap per obligation (set by the outer prove): 4 x the per-query budget; past it every further query answers `unknown`
 def _left_ms(timeout_ms):
     if DEADLINE[0] is None: return timeout_ms
     return int(max(0, min(timeout_ms, (DEADLINE[0] - time.time()) * 1000)))
+import threading
+def guarded_check(s, timeout_ms):
+    """s.check() with a watchdog: z3's own `timeout` is not honoured inside some preprocessing steps (seen: > 15 min on a 30 s budget),
+    so a timer interrupts the context 3 s past the budget; an interrupted query answers `unknown`, never anything else"""
+    ctx = s.ctx      # the timer thread must hold the (global, never freed) context only: a reference to the solver would be released from that thread, and z3 is not thread-safe
+    t = threading.Timer(timeout_ms / 1000.0 + 3.0, ctx.interrupt); t.daemon = True; t.start()
+    try: return s.check()
+    except z3.Z3Exception: return z3.unknown
+    finally: t.cancel()
 def _check(assumptions, goal, timeout_ms):
     timeout_ms = _left_ms(timeout_ms)
     if timeout_ms <= 0: return z3.unknown, None
     s = z3.Solver(); s.set("timeout", timeout_ms)
     s.add(*assumptions); s.add(z3.Not(goal))
-    r = s.check()
+    r = guarded_check(s, timeout_ms)
     if r == z3.unknown and _nonlinear(list(assumptions) + [goal]):
         # second attempt with products of variables treated as opaque terms (no nonlinear arithmetic reasoning): only `unsat` is taken from it -
         # it is a weaker theory, so unsat there is unsat in the integers; the facts about products then come from the instantiated (Lean-proved) lemmas alone
         if _left_ms(timeout_ms) <= 0: return r, None
         s2 = z3.Solver(); s2.set("timeout", _left_ms(timeout_ms)); s2.set("arith.nl", False)
         s2.add(*assumptions); s2.add(z3.Not(goal))
-        if s2.check() == z3.unsat: return z3.unsat, None
+        if guarded_check(s2, _left_ms(timeout_ms)) == z3.unsat: return z3.unsat, None
     return r, (s.model() if r == z3.sat else None)
 def _nonlinear(terms):
     seen = set()
@@ -188,7 +198,17 @@ def _strip(pc, goal):
 def prove(pc, goal, timeout_ms=10000, axioms=True):
     """prove with one level of case splitting on ite-conditions of the goal (congruence lemmas may hold only per case)"""
     top = DEADLINE[0] is None
-    if top: DEADLINE[0] = time.time() + 4 * timeout_ms / 1000.0
+    if top:
+        DEADLINE[0] = time.time() + 4 * timeout_ms / 1000.0
+        if UNIT_DEADLINE[0] is not None:
+            # the unit's wall-clock budget (set by the worker): past it every remaining obligation of the unit is left undecided at once,
+            # so that the verdicts obtained so far (incl. refutations with their counter-models) are reported instead of a worker timeout
+            if time.time() >= UNIT_DEADLINE[0]:
+                DEADLINE[0] = None
+                g = toz3(goal)
+                if z3.is_true(z3.simplify(g)): return Verdict("proved", "trivial", 0.0)
+                return Verdict("unknown", "z3", 0.0, detail="unit wall-clock budget exhausted before this obligation was tried")
+            DEADLINE[0] = min(DEADLINE[0], UNIT_DEADLINE[0])
     try: return _prove_outer(pc, goal, timeout_ms, axioms)
     finally:
         if top: DEADLINE[0] = None
@@ -218,4 +238,4 @@ def _prove_outer(pc, goal, timeout_ms=10000, axioms=True):
     return v
 
 def satisfiable(pc, timeout_ms=5000):
-    s = z3.Solver(); s.set("timeout", timeout_ms); s.add(*[toz3(p) for p in pc]); return s.check()
+    s = z3.Solver(); s.set("timeout", timeout_ms); s.add(*[toz3(p) for p in pc]); return guarded_check(s, timeout_ms)
